@@ -54,7 +54,7 @@ func drawC14(t *rapid.T) *c14Scenario {
 		s.Outcomes = append(s.Outcomes, rapid.SampledFrom([]string{"ok", "ok", "ok", "ok", "ice", "ncnr", "createerr", "err", "createerr-ice", "wrapped-ice"}).Draw(t, "outcome"))
 	}
 	// a mostly-happy skeleton with generated perturbations
-	kinds := []string{"reconcile", "reconcile", "reconcile", "stale", "join", "ready", "untaint", "gpu", "clock", "notready"}
+	kinds := []string{"reconcile", "reconcile", "reconcile", "stale", "join", "ready", "untaint", "gpu", "clock", "notready", "readyUnknown"}
 	minSteps := rapid.IntRange(6, 16).Draw(t, "minSteps")
 	s.Steps = rapid.SliceOfN(rapid.Custom(func(t *rapid.T) c14Step {
 		return c14Step{Kind: rapid.SampledFrom(kinds).Draw(t, "kind"), Arg: rapid.IntRange(0, 3).Draw(t, "arg")}
@@ -363,6 +363,19 @@ func runC14(s *c14Scenario, faultIdx, faultKind int) *c14Run {
 					n.Spec.Taints = append(rejectTaint(n.Spec.Taints, corev1.TaintNodeNotReady), corev1.Taint{Key: corev1.TaintNodeNotReady, Effect: corev1.TaintEffectNoSchedule})
 				})
 			}
+		case "readyUnknown":
+			// the kubelet stopped reporting (Ready Unknown) or has not posted a status yet (no Ready condition), and the
+			// node lifecycle controller has not (re-)applied its taints: the conditions alone say "not Ready"
+			if joined {
+				r.outOfOrder = true
+				w.UpdateNode(nodeName, func(n *corev1.Node) {
+					n.Status.Conditions = nil
+					if st.Arg%2 == 0 {
+						n.Status.Conditions = []corev1.NodeCondition{{Type: corev1.NodeReady, Status: corev1.ConditionUnknown}}
+					}
+					n.Spec.Taints = rejectTaint(n.Spec.Taints, corev1.TaintNodeNotReady)
+				})
+			}
 		case "untaint":
 			if joined {
 				w.UpdateNode(nodeName, func(n *corev1.Node) { n.Spec.Taints = rejectTaint(n.Spec.Taints, "startup.ex.io/agent") })
@@ -472,7 +485,7 @@ func execC14(s *c14Scenario, c *ev.Ctx) {
 
 var propC14 = ev.Prop[c14Scenario]{
 	ID: "C14", Test: "TestC14", Level: "fault_enumeration",
-	Rule: "rapid draws a NodeClaim (startup / template taints, GPU request), a provider script (ok | ICE | NodeClassNotReady | CreateError | generic), and 6-24 steps from {lifecycle reconcile, reconcile of a STALE copy, node joins (with/without the unregistered taint, GPU unreported), Ready, NotReady, startup taint removed, GPU reported, clock +10s/2m/6m/16m}; a fault-free run counts the API writes and provider calls the real lifecycle controller makes, then EVERY such call index is failed once (quick: one drawn error kind of conflict/500/not-found, thorough: all three); " +
+	Rule: "rapid draws a NodeClaim (startup / template taints, GPU request), a provider script (ok | ICE | NodeClassNotReady | CreateError | generic), and 6-24 steps from {lifecycle reconcile, reconcile of a STALE copy, node joins (with/without the unregistered taint, GPU unreported), Ready, NotReady, Ready Unknown / not reported without a not-ready taint, startup taint removed, GPU reported, clock +10s/2m/6m/16m}; a fault-free run counts the API writes and provider calls the real lifecycle controller makes, then EVERY such call index is failed once (quick: one drawn error kind of conflict/500/not-found, thorough: all three); " +
 		"oracle (monitors evaluated after every write): successful provider.Create per NodeClaim <= 1, never before the finalizer is stored, never again after a capacity error deleted the claim; Launched/Registered/Initialized turn True only when instance exists / node present, labelled registered, synced, unregistered taint gone / node Ready, startup + ephemeral taints gone, requested extended resources non-zero, and in that order; a True condition never regresses; " +
 		"non-trivial = a fault landed after a successful Create and before Launched was persisted, or node events arrived out of the happy order; evaluations counted as scenarios, executions (scenario x fault) in counters",
 	Assumptions: []string{"one controller instance per scenario (the launch cache is in-memory by design)", "a stale read observes the same version as the previous reconcile (caches never go backwards)"},
